@@ -176,6 +176,8 @@ class Recorder(TunerCallback):
         self.crit_trace = []
 
     def _ev(self, *call):
+        if self.tuner is not None and self.tuner.tuning_status is not None:
+            self.snapshots.append(dict(self.tuner.tuning_status.last_trial_status_seen))
         self.dlg.call(["cb"] + list(call), lambda: None)
 
     def on_tuning_start(self, tuner):
@@ -189,8 +191,6 @@ class Recorder(TunerCallback):
         self._ev("loop_start")
 
     def on_loop_end(self):
-        ts = self.tuner.tuning_status
-        self.snapshots.append(dict(ts.last_trial_status_seen))
         self._ev("loop_end")
 
     def on_fetch_status_results(self, trial_status_dict, new_results):
@@ -227,9 +227,18 @@ def wrap_scheduler(sch, dlg):
 
     sch.suggest = lambda trial_id: dlg.call(["sched", "suggest", int(trial_id)], lambda: o_suggest(trial_id), ans_suggest)
     sch.on_trial_add = lambda trial: dlg.call(["sched", "add", int(trial.trial_id)], lambda: o_add(trial))
-    sch.on_trial_result = lambda trial, result: dlg.call(
-        ["sched", "result", int(trial.trial_id), dlg.result_token(trial.trial_id, result)],
-        lambda: o_result(trial, result), lambda d: {"d": d})
+    def on_result(trial, result):
+        before = dict(result)
+
+        def ans(d):
+            if result != before or list(result) != list(before):  # the scheduler changed the result dict (e.g. total cost)
+                return {"d": d, "m": dlg.wire_result(result)}
+            return {"d": d}
+
+        return dlg.call(["sched", "result", int(trial.trial_id), dlg.result_token(trial.trial_id, result)],
+                        lambda: o_result(trial, result), ans)
+
+    sch.on_trial_result = on_result
     sch.on_trial_remove = lambda trial: dlg.call(["sched", "remove", int(trial.trial_id)], lambda: o_remove(trial))
     sch.on_trial_complete = lambda trial, result: dlg.call(
         ["sched", "complete", int(trial.trial_id), dlg.result_token(trial.trial_id, result)], lambda: o_complete(trial, result))
